@@ -193,6 +193,34 @@ theorem bottomupRecords_eq {β γ : Type} (group : List (Peak α V) → β) (dec
   unfold bottomupRecords bottomupForward
   simp only [hper, List.zip_map', List.map_map, Function.comp_def]
 
+/-! ### ground-truth peaks -/
+
+theorem gtParse_eq {τ : Type} (maxInst : Nat) (ms : List (List τ)) (pre : List τ) :
+    gtParse maxInst pre.length ms (pre ++ ms.flatten) = ms.map (gtPad maxInst) := by
+  induction ms generalizing pre with
+  | nil => rfl
+  | cons m ms ih =>
+    simp only [gtParse, List.map_cons]
+    by_cases hc : m.length = 0
+    · have hm : m = [] := List.eq_nil_of_length_eq_zero hc
+      subst hm
+      have := ih pre
+      simp only [List.flatten_cons, List.nil_append] at this ⊢
+      simp [this, gtPad]
+    · rw [if_neg hc]
+      have hcur : ((pre ++ (m :: ms).flatten).drop pre.length).take m.length = m := by
+        simp [List.flatten_cons]
+      have hnext := ih (pre ++ m)
+      simp only [List.length_append, List.append_assoc] at hnext
+      rw [hcur]
+      simp only [List.flatten_cons]
+      rw [hnext]
+      simp [gtPad]
+
+theorem gtPeaks_eq {τ : Type} (maxInst : Nat) (ms : List (List τ)) :
+    gtPeaks maxInst ms = ms.map (gtPad maxInst) := by
+  simpa [gtPeaks] using gtParse_eq maxInst ms []
+
 /-! ### chunking -/
 
 theorem flatten_chunksFuel {τ : Type} (B : Nat) (hB : 1 ≤ B) (fuel : Nat) (l : List τ)
